@@ -175,7 +175,9 @@ class Sut:
             with contextlib.redirect_stdout(sink):
                 if op == "burst":
                     raw, bt = self.build(b)
-                    burst = Burst.from_bytes(raw, burst_type=bt)
+                    # "parseable burst": every third one is parsed from its 33 octets alone, as a receiver without a transport's
+                    # burst-type hint does (Burst.from_bytes(x)), the others with the hint an IPSC / MMDVM frame would supply
+                    burst = Burst.from_bytes(raw) if self.n % 3 == 1 else Burst.from_bytes(raw, burst_type=bt)
                     res = self.term.process_incoming_burst(burst, ts)
                     out["label"] = res.voice_burst.name.replace("VoiceBurst", "")
                     out["seq"] = res.sequence_no
@@ -234,7 +236,7 @@ class WSut(Sut):
                         raw, bt = self.build_to(b, tgt)
                     else:
                         raw, bt = self.build(b)
-                    burst = Burst.from_bytes(raw, burst_type=bt)
+                    burst = Burst.from_bytes(raw) if self.n % 3 == 1 else Burst.from_bytes(raw, burst_type=bt)
                     burst.timeslot = ts
                     if op == "burst":
                         burst.target_radio_id = tgt
@@ -568,7 +570,7 @@ def run(ctx):
                 "judges every recorded step with the property monitor. distinct = distinct (state, letter) edges "
                 "+ distinct random steps.")
     ctx.assumptions += [
-        "parseable burst = Burst.from_bytes returned; voice bursts are parsed with burst_type=Vocoder",
+        "parseable burst = Burst.from_bytes returned - with the burst-type hint a transport frame supplies (voice: Vocoder), every third burst without any hint",
         "a start without an end is allowed (voice interrupted by data), an end without a start is not",
         "the burst that causes a start belongs to the new transmission, a burst that causes an end to the ended one",
         "secrets.token_bytes is replaced by a counter in the harness (stream ids become comparable)",
